@@ -132,6 +132,13 @@ Lemma static_tok_eq t :
                     end.
 Proof. destruct t. reflexivity. Qed.
 
+(* the tables regenerated from the source are what the specification expects *)
+Lemma gen_table_align : table_align = spec_align. Proof. reflexivity. Qed.
+Lemma gen_style_map : olist_style_map = spec_style_map. Proof. reflexivity. Qed.
+Lemma gen_default_style : olist_default_style = spec_default_style. Proof. reflexivity. Qed.
+Lemma gen_hardbreak : hardbreak_raws = spec_hardbreak. Proof. reflexivity. Qed.
+Lemma gen_s_raws : s_raws = spec_s_raws. Proof. reflexivity. Qed.
+
 Section Main.
   Variable D : str -> str.
   Variable B : backend.
@@ -357,7 +364,7 @@ Section Main.
     Forall tok_ok (children t) -> static_tok t = true -> kind_of (ty t) = KOrderedList ->
     run_f (render_ordered_list C OR t (map bld (children t))) ctag f = Some (Good (ns, f')) -> post t f ns f'.
   Proof.
-    intros Hall Hst K H. unfold render_ordered_list in H.
+    intros Hall Hst K H. unfold render_ordered_list in H. rewrite gen_style_map, gen_default_style in H.
     apply run_container in H. destruct H as [o [f1 [a [msgs [f2 [cs [Ea [Ec [Hb ->]]]]]]]]].
     pose proof Ec as Ec2. apply copy_attributes_post in Ec. destruct Ec as [Hm Ha].
     unfold copy_attributes in Ec2.
@@ -598,7 +605,7 @@ Section Main.
     kind_of (ty t) = KHardbreak ->
     run_f (render_hardbreak t (map bld (children t))) ctag f = Some (Good (ns, f')) -> post t f ns f'.
   Proof.
-    intros K H. unfold render_hardbreak in H.
+    intros K H. unfold render_hardbreak in H. rewrite gen_hardbreak in H.
     apply run_append_raws in H. destruct H as [ns1 [f1 [ns2 [Hk [-> [Hno [Hsk Hd]]]]]]].
     apply run_f_Done_inv in Hk. destruct Hk as [-> ->]. rewrite app_nil_r.
     split; [apply Hno|]. intros _ _. rewrite Hsk. tk t. rewrite K. reflexivity.
@@ -608,14 +615,14 @@ Section Main.
     Forall tok_ok (children t) -> static_tok t = true -> kind_of (ty t) = KS ->
     run_f (render_s t (map bld (children t))) ctag f = Some (Good (ns, f')) -> post t f ns f'.
   Proof.
-    intros Hall Hst K H. unfold render_s in H.
+    intros Hall Hst K H. unfold render_s in H. rewrite gen_s_raws in H.
     apply run_f_FOp_inv in H. destruct H as [w [f1 [Ew H]]].
     apply run_f_Append_inv in H. destruct H as [ns' [-> H]].
-    assert (Hsk : sktok t = match s_raws with
+    assert (Hsk : sktok t = match spec_s_raws with
                             | [r1; r2] => raw_skels [r1] ++ flat_map sktok (children t) ++ raw_skels [r2]
                             | _ => [SUnknown (ty t)]
                             end) by (tk t; rewrite K; reflexivity).
-    destruct s_raws as [|r1 [|r2 [|r3 rs]]]; try (apply run_f_Fail_inv in H; contradiction).
+    destruct spec_s_raws as [|r1 [|r2 [|r3 rs]]]; try (apply run_f_Fail_inv in H; contradiction).
     apply run_append_raws in H. destruct H as [na [fa [nb [Hk [-> [Hnoa [Hska Hda]]]]]]].
     apply run_f_seq_inv in Hk. destruct Hk as [nk [fk [nc [Hkids [Hr2 ->]]]]].
     apply run_append_raws in Hr2. destruct Hr2 as [nd [fd [ne [Hdone [-> [Hnod [Hskd Hdd]]]]]]].
@@ -827,10 +834,10 @@ Section Main.
   Qed.
 
   Lemma skel_reference o a msgs cs sk dest :
-    D (link_dest_of a) = D dest -> Forall regmsg msgs -> skel_ok sk cs ->
+    (Hyps -> D (link_dest_of a) = D dest) -> Forall regmsg msgs -> skel_ok sk cs ->
     skel_ok [SBox (CLink (D dest)) sk] [Elem o n_reference a (msgs ++ cs)].
   Proof.
-    intros Hd Hm Hk. rewrite <- Hd.
+    intros Hd Hm Hk Hy. rewrite <- (Hd Hy). revert Hy.
     apply (skel_elem_msgs o n_reference a msgs cs sk (fun x => [SBox (CLink (D (link_dest_of a))) x])); auto.
   Qed.
 
@@ -850,7 +857,7 @@ Section Main.
     - eapply (nodes_ok_container _ _ f o f1 n_reference _ msgs f3 cs f4 Ea);
         [ eapply msgs_post_keep; [exact Hm | exact Er] | exact Hno | plain ].
     - rewrite (sktok_link t K). apply skel_reference; auto; [|destruct Hm; auto].
-      unfold link_dest_of. rewrite assoc_aset_same. reflexivity.
+      intros _. unfold link_dest_of. rewrite assoc_aset_same. reflexivity.
   Qed.
 
   Lemma post_link_anchor t ctag f ns f' :
@@ -872,11 +879,82 @@ Section Main.
     - eapply (nodes_ok_container _ _ f o f1 n_reference _ msgs f3 cs f4 Ea);
         [ eapply msgs_post_keep_l; [exact Er | exact Hm] | exact Hno | plain ].
     - rewrite (sktok_link t K). apply skel_reference; auto; [|destruct Hm; auto].
-      unfold link_dest_of.
+      intros [_ [HC _]]. unfold link_dest_of.
       rewrite (Ha a_refuri) by (try (intros [X|[X|[X|[]]]]; discriminate X); discriminate).
       replace (assoc a_refuri [(a_id_link, [v_true]); (a_refuri, [o_nlt OR (href_of t)])])
         with (Some [o_nlt OR (href_of t)]) by reflexivity.
-      apply O_canon.
+      apply HC.
+  Qed.
+
+  (* SphinxRenderer._process_wrap_node: the wrap node with its (possibly empty) inner node *)
+  Lemma wrap_struct t :
+    kind_of (ty t) = KLink -> Forall tok_ok (children t) -> static_tok t = true ->
+    str_eqb (info t) v_auto = false ->
+    forall o tg a0 cls pd ctag f f1 ns f',
+    alloc f = Good (o, f1) -> plain_tag tg ->
+    run_f (process_wrap_node C OR t (map bld (children t)) o tg a0 cls pd) ctag f1 = Some (Good (ns, f')) ->
+    nodes_ok (tshape t) (hr_free t) f ns f' /\
+    (tg = n_pending_xref ->
+     (forall a, (forall k, ~ In k [a_class; a_id; a_title] -> k <> a_classes -> assoc k a = assoc k a0) ->
+                Hyps -> D (link_dest_of a) = D (href_of t)) ->
+     skel_ok [SBox (CLink (D (href_of t))) (flat_map sktok (children t))] ns).
+  Proof.
+    intros K Hall Hst Hauto o tg a0 cls pd ctag f f1 ns f' Ea Hp H. unfold process_wrap_node in H.
+    apply run_f_FOp_inv in H. destruct H as [[a msgs] [f2 [Ec H]]].
+    apply copy_attributes_post in Ec. destruct Ec as [Hm Ha].
+    assert (Hx : forall inner_kids oi cls' sk,
+               tg = n_pending_xref -> (Hyps -> D (link_dest_of a) = D (href_of t)) ->
+               skel_ok sk inner_kids ->
+               skel_ok [SBox (CLink (D (href_of t))) sk]
+                       [Elem o tg a (msgs ++ [Elem oi k_inline [(a_classes, cls')] inner_kids])]).
+    { intros ik oi cls' sk -> Hdest Hk Hy Hd. rewrite <- (Hdest Hy).
+      rewrite has_dropped_elem in Hd by reflexivity. rewrite existsb_app in Hd.
+      apply orb_false_iff in Hd. destruct Hd as [_ Hd]. rewrite has_dropped_elem in Hd by reflexivity.
+      unfold skel_nodes. cbn [flat_map skel_node].
+      replace (nkind_of n_pending_xref) with NXref by reflexivity. rewrite app_nil_r. f_equal. f_equal.
+      rewrite flat_map_app. cbn [flat_map]. rewrite app_nil_r.
+      replace (nkind_of k_inline) with (NBox CSpan) by reflexivity.
+      assert (Hms : flat_map (fun c => match c with
+                                       | Text _ _ => skel_node D c
+                                       | Elem _ tg' _ cs' =>
+                                           match nkind_of tg' with
+                                           | NBox CSpan => flat_map (skel_node D) cs'
+                                           | NLiteral => []
+                                           | _ => skel_node D c
+                                           end
+                                       end) msgs = []).
+      { destruct Hm as [Hm _]. clear -Hm. induction Hm as [|m ms Hmm _ IH]; cbn [flat_map]; auto.
+        rewrite IH, app_nil_r. destruct Hmm as [om [lv [tag [-> _]]]]. reflexivity. }
+      rewrite Hms. cbn [app]. exact (Hk Hy Hd). }
+    destruct (explicit_link t (map bld (children t))) eqn:Eex.
+    - apply run_f_FOp_inv in H. destruct H as [oi [f3 [Eb H]]].
+      apply run_f_Detached_inv in H. destruct H as [cs [f4 [Hb H]]].
+      apply run_f_Append_inv in H. destruct H as [ns' [-> H]].
+      apply run_f_Done_inv in H. destruct H as [-> ->].
+      destruct (link_kids t K Hall Hst _ _ _ _ Hb) as [Hno Hsko].
+      split.
+      + eapply nodes_ok_container; eauto. eapply nodes_ok_elem; eauto. plain.
+      + intros Htg Hdest. cbn [app]. apply Hx; auto.
+    - assert (Hnil : children t = []).
+      { unfold explicit_link in Eex. rewrite Hauto in Eex. cbn [negb andb] in Eex.
+        destruct (children t); [reflexivity|discriminate]. }
+      destruct (str_eqb tg n_download_reference) eqn:Edl.
+      + apply run_new_text_elem in H. destruct H as [oi [inner [f3 [Hte H]]]].
+        apply run_f_Append_inv in H. destruct H as [ns' [-> H]].
+        apply run_f_Done_inv in H. destruct H as [-> ->].
+        destruct (text_elem_facts _ _ _ _ _ _ _ Hte ltac:(plain)) as [ks [-> [Hat [Hdk [Hn1 _]]]]].
+        split.
+        * rewrite hr_free_kids, tshape_kids by (rewrite K; exact I). rewrite Hnil. cbn [forallb].
+          eapply nodes_ok_container; eauto.
+        * intros Htg _. subst tg. discriminate Edl.
+      + apply run_f_FOp_inv in H. destruct H as [oi [f3 [Eb H]]].
+        apply run_f_Append_inv in H. destruct H as [ns' [-> H]].
+        apply run_f_Done_inv in H. destruct H as [-> ->].
+        split.
+        * rewrite hr_free_kids, tshape_kids by (rewrite K; exact I). rewrite Hnil. cbn [forallb].
+          eapply nodes_ok_container; eauto.
+          eapply nodes_ok_elem; eauto; [plain|]. apply nodes_ok_nil. lia.
+        * intros Htg Hdest. rewrite Hnil. cbn [flat_map]. apply Hx; auto. apply skel_ok_nil.
   Qed.
 
   Lemma post_link_unknown t ctag f ns f' :
@@ -887,11 +965,14 @@ Section Main.
     intros K Hall Hst Hauto H. unfold render_link_unknown in H. destruct (is_sphinx B).
     - destruct (split_hash (o_nlt OR (href_of t)) []) as [pd pid].
       apply run_f_FOp_inv in H. destruct H as [o [f1 [Ea H]]].
-      rewrite O_no_files in H. unfold process_wrap_node in H.
-      apply run_f_FOp_inv in H. destruct H as [[a msgs] [f2 [Ec H]]].
-      apply copy_attributes_post in Ec. destruct Ec as [Hm Ha].
-      assert (Hdest : D (link_dest_of a) = D (href_of t)).
-      { unfold link_dest_of.
+      destruct (o_path2doc OR pd) as [[docname|]|] eqn:Epd.
+      + destruct (wrap_struct t K Hall Hst Hauto o n_pending_xref _ _ _ _ _ _ _ _ Ea ltac:(plain) H) as [Hno _].
+        split; [exact Hno|]. intros [_ [_ HF]]. rewrite HF in Epd. discriminate Epd.
+      + destruct (wrap_struct t K Hall Hst Hauto o n_download_reference _ _ _ _ _ _ _ _ Ea ltac:(plain) H) as [Hno _].
+        split; [exact Hno|]. intros [_ [_ HF]]. rewrite HF in Epd. discriminate Epd.
+      + destruct (wrap_struct t K Hall Hst Hauto o n_pending_xref _ _ _ _ _ _ _ _ Ea ltac:(plain) H) as [Hno Hsk].
+        split; [exact Hno|]. rewrite (sktok_link t K). apply Hsk; [reflexivity|].
+        intros a Ha [_ [HC _]]. unfold link_dest_of.
         rewrite (Ha a_refuri) by (try (intros [X|[X|[X|[]]]]; discriminate X); discriminate).
         rewrite (Ha a_refname) by (try (intros [X|[X|[X|[]]]]; discriminate X); discriminate).
         rewrite (Ha a_reftarget) by (try (intros [X|[X|[X|[]]]]; discriminate X); discriminate).
@@ -900,52 +981,7 @@ Section Main.
           replace (assoc a_refuri l) with (@None (list str)) by reflexivity;
           replace (assoc a_refname l) with (@None (list str)) by reflexivity;
           replace (assoc a_reftarget l) with (Some [o_nlt OR (href_of t)]) by reflexivity
-        end. apply O_canon. }
-      assert (Hx : forall inner_kids oi cls sk,
-                 skel_ok sk inner_kids ->
-                 skel_ok [SBox (CLink (D (href_of t))) sk]
-                         [Elem o n_pending_xref a (msgs ++ [Elem oi k_inline [(a_classes, cls)] inner_kids])]).
-      { intros ik oi cls sk Hk Hy Hd. rewrite <- Hdest.
-        rewrite has_dropped_elem in Hd by reflexivity. rewrite existsb_app in Hd.
-        apply orb_false_iff in Hd. destruct Hd as [_ Hd]. rewrite has_dropped_elem in Hd by reflexivity.
-        unfold skel_nodes. cbn [flat_map skel_node].
-        replace (nkind_of n_pending_xref) with NXref by reflexivity. rewrite app_nil_r. f_equal. f_equal.
-        rewrite flat_map_app. cbn [flat_map]. rewrite app_nil_r.
-        replace (nkind_of k_inline) with (NBox CSpan) by reflexivity.
-        assert (Hms : flat_map (fun c => match c with
-                                         | Text _ _ => skel_node D c
-                                         | Elem _ tg' _ cs' =>
-                                             match nkind_of tg' with
-                                             | NBox CSpan => flat_map (skel_node D) cs'
-                                             | NLiteral => []
-                                             | _ => skel_node D c
-                                             end
-                                         end) msgs = []).
-        { destruct Hm as [Hm _]. clear -Hm. induction Hm as [|m ms Hmm _ IH]; cbn [flat_map]; auto.
-          rewrite IH, app_nil_r. destruct Hmm as [om [lv [tag [-> _]]]]. reflexivity. }
-        rewrite Hms. cbn [app]. exact (Hk Hy Hd). }
-      destruct (explicit_link t (map bld (children t))) eqn:Eex.
-      + apply run_f_FOp_inv in H. destruct H as [oi [f3 [Eb H]]].
-        apply run_f_Detached_inv in H. destruct H as [cs [f4 [Hb H]]].
-        apply run_f_Append_inv in H. destruct H as [ns' [-> H]].
-        apply run_f_Done_inv in H. destruct H as [-> ->].
-        destruct (link_kids t K Hall Hst _ _ _ _ Hb) as [Hno Hsko].
-        split.
-        * eapply nodes_ok_container; eauto; [|plain].
-          eapply nodes_ok_elem; eauto. plain.
-        * rewrite (sktok_link t K). cbn [app]. apply Hx. exact Hsko.
-      + assert (Hnil : children t = []).
-        { unfold explicit_link in Eex. rewrite Hauto in Eex. cbn [negb andb] in Eex.
-          destruct (children t); [reflexivity|discriminate]. }
-        replace (str_eqb n_pending_xref n_download_reference) with false in H by reflexivity.
-        apply run_f_FOp_inv in H. destruct H as [oi [f3 [Eb H]]].
-        apply run_f_Append_inv in H. destruct H as [ns' [-> H]].
-        apply run_f_Done_inv in H. destruct H as [-> ->].
-        split.
-        * rewrite hr_free_kids, tshape_kids by (rewrite K; exact I). rewrite Hnil. cbn [forallb].
-          eapply nodes_ok_container; eauto; [|plain].
-          eapply nodes_ok_elem; eauto; [plain|]. apply nodes_ok_nil. lia.
-        * rewrite (sktok_link t K), Hnil. cbn [flat_map]. apply Hx. apply skel_ok_nil.
+        end. apply HC.
     - apply run_f_FOp_inv in H. destruct H as [o [f1 [Ea H]]].
       apply run_f_FOp_inv in H. destruct H as [[a msgs] [f2 [Ec H]]].
       apply run_f_Ctx_inv in H. destruct H as [cs [f4 [ns' [Hb [Hd ->]]]]].
@@ -955,7 +991,7 @@ Section Main.
       split.
       + eapply nodes_ok_container; eauto. plain.
       + rewrite (sktok_link t K). apply skel_reference; auto; [|destruct Hm; auto].
-        unfold link_dest_of.
+        intros _. unfold link_dest_of.
         rewrite assoc_aset_other by discriminate.
         rewrite (Ha a_refuri) by (try (intros [X|[X|[X|[]]]]; discriminate X); discriminate).
         cbn [assoc]. rewrite assoc_aset_same. reflexivity.
@@ -1026,7 +1062,7 @@ Section Main.
     nodes_ok (forallb tshape (children c)) (forallb hr_free (children c)) f ns f' /\
     skel_ok (cell_skel c) ns /\ all_tag n_entry ns /\ length ns = 1%nat.
   Proof.
-    intros Hall Hst H. unfold render_table_cell in H. rewrite rt_kids_build, rt_tok_build in H.
+    intros Hall Hst H. unfold render_table_cell in H. rewrite rt_kids_build, rt_tok_build, gen_table_align in H.
     apply run_f_FOp_inv in H. destruct H as [oe [f1 [Ea H]]].
     apply run_f_FOp_inv in H. destruct H as [op [f2 [Eb H]]].
     apply run_f_Ctx_inv in H. destruct H as [ecs [f3 [ns' [Hb [Hd ->]]]]].
@@ -1044,7 +1080,7 @@ Section Main.
       rewrite !app_nil_r. change (flat_map (skel_node D) cs) with (skel_nodes D cs). rewrite (Hsko Hy Hd).
       f_equal. f_equal. f_equal. unfold align_of.
       destruct (attr_get c a_style) as [st|]; [|reflexivity].
-      destruct (assoc st table_align); reflexivity.
+      destruct (assoc st spec_align); reflexivity.
     - constructor; [reflexivity|constructor].
     - reflexivity.
   Qed.
